@@ -6,11 +6,11 @@ tagged with the serial of the reply they derive from).
 
  (1) TLC model-checks N1 (fresh issued nonce on every POST), N2 (POSTs per post() call bounded by
      the back-off budget, nothing sent after cancellation), N3 (result corresponds to the last
-     reply), N4 (pool cap) exhaustively: one operation with reply scripts up to 7, two and three
+     reply), N4 (pool cap) exhaustively (thorough: one operation with reply scripts up to 7, two and three; quick: two operations, scripts up to 3, and the one-operation generator instance)
      concurrent operations sharing the pool with smaller scripts (bounds fitted to measured state
      counts), incl. an instance with capacity 1 so the cap is exercised.
  (2) binding R: AcmeNonce_Gen emits every complete single-operation behaviour (reply scripts up to
-     5 / 6, budgets {0,1,3}, 1-3 post() phases, with/without newNonce URL, pool empty/primed);
+     4 (quick) / 6 (thorough), budgets {0,1,3}, 1-3 post() phases, with/without newNonce URL, pool empty/primed);
      harness/c50 TestReplay plays each against the REAL acme.Client through its public API and
      compares POST counts, nonce freshness, cancellation and the returned value/error.
  (3) binding T: the event logs recorded by the fake server for those replays, for seeded random
@@ -35,8 +35,8 @@ def _load_traces(path):
     return tr
 
 
-def _validate(ctx, traces, what, max_events):
-    """validate a seeded sample of the recorded traces bounded by max_events events"""
+def _sample(ctx, traces, max_events):
+    """a seeded sample of the recorded traces bounded by max_events events"""
     rnd = random.Random(ctx.seed * 7919 + len(traces))
     idx = list(range(len(traces)))
     rnd.shuffle(idx)
@@ -45,6 +45,12 @@ def _validate(ctx, traces, what, max_events):
         if n + len(traces[i]) > max_events and chosen:
             break
         chosen.append(traces[i]); n += len(traces[i])
+    return chosen
+
+
+def _validate(ctx, traces, what, max_events):
+    chosen = _sample(ctx, traces, max_events)
+    n = sum(len(t) for t in chosen)
     ok = ctx.validate_traces("AcmeNonce_Trace", chosen, sig_prefix="c50-trace-rejected", timeout=1500, max_rejects=3)
     ctx.log("%s: %d/%d recorded traces (%d events) validated by AcmeNonce_Trace, %d accepted" % (what, len(chosen), len(traces), n, ok))
     return len(chosen)
@@ -73,7 +79,9 @@ def run(ctx):
         ctx.notes.append("replay file carries no single case; running the whole tier")
 
     # ---- (1) exhaustive model checking
-    mcs = ["MC1", "MC2q"] + (["MC2cap", "MC2t", "MC2deep", "MC3"] if ctx.thorough else [])
+    # quick: two operations with scripts <= 3 (62 k states); the one-operation instance is checked inside the
+    # generator run below (its config carries the invariants).  thorough: the large instances.
+    mcs = ["MC1", "MC2q", "MC2cap", "MC2t", "MC2deep", "MC3"] if ctx.thorough else ["MC2quick"]
     if os.environ.get("VERIF_SKIP_MC"):          # development aid for mutation runs; recorded in the evidence
         mcs = []
         ctx.skipped.append("VERIF_SKIP_MC set: exhaustive model checking skipped")
@@ -82,8 +90,8 @@ def run(ctx):
         ctx.log("%s: %d distinct states" % (m, r.distinct))
 
     # ---- (2) binding R: every bounded single-operation behaviour, replayed on the real client
-    gen = ctx.pick("AcmeNonce_Gen1.cfg", "AcmeNonce_Gen1t.cfg")
-    g = ctx.tlc_must_hold("AcmeNonce_Gen", cfg=gen, workers=1, timeout=1500, count=False)
+    gen = ctx.pick("AcmeNonce_Gen1q.cfg", "AcmeNonce_Gen1t.cfg")
+    g = ctx.tlc_must_hold("AcmeNonce_Gen", cfg=gen, workers=1, timeout=1500, count=not ctx.thorough)
     if not g.traces:
         raise vlib.Infra("generator produced no behaviours")
     ctx.log("generator: %d behaviours" % len(g.traces))
@@ -93,22 +101,32 @@ def run(ctx):
     ctx.absorb(res, validated=False)
     if ctx.violations:
         return      # the real client already contradicted the model in the replay: verdict is settled
-    nval = _validate(ctx, _load_traces(tp), "replay logs", ctx.pick(12000, 60000))
-    if ctx.violations:
-        return
-
+    if ctx.thorough:
+        nval = _validate(ctx, _load_traces(tp), "replay logs", 60000)
+        if ctx.violations:
+            return
     # ---- (3) binding T: concurrent and long sessions
     tp2 = ctx.tmp("c50_conc_traces.ndjson")
     res = ctx.go_test("c50", "TestConcurrent", timeout=1500, race=True,
                       env={"VERIF_TRACES": tp2, "C50_ROUNDS": ctx.pick(120, 600)})
     ctx.absorb(res, validated=False)
-    nval += _validate(ctx, _load_traces(tp2), "concurrent sessions", ctx.pick(8000, 60000))
+    tp3 = ctx.tmp("c50_long_traces.ndjson")
+    res3 = ctx.go_test("c50", "TestLong", timeout=1500, env={"VERIF_TRACES": tp3, "C50_SESSIONS": ctx.pick(12, 150)})
+    ctx.absorb(res3, validated=False)
     if ctx.violations:
         return
-    tp3 = ctx.tmp("c50_long_traces.ndjson")
-    res = ctx.go_test("c50", "TestLong", timeout=1500, env={"VERIF_TRACES": tp3, "C50_SESSIONS": ctx.pick(12, 150)})
-    ctx.absorb(res, validated=False)
-    nval += _validate(ctx, _load_traces(tp3), "long sessions", ctx.pick(6000, 50000))
+    if ctx.thorough:
+        nval += _validate(ctx, _load_traces(tp2), "concurrent sessions", 60000)
+        nval += _validate(ctx, _load_traces(tp3), "long sessions", 50000)
+    else:
+        # quick: one TLC start for all three kinds of recorded traces
+        chosen = _sample(ctx, _load_traces(tp), 4000) + _sample(ctx, _load_traces(tp2), 4000) + _sample(ctx, _load_traces(tp3), 2500)
+        ok = ctx.validate_traces("AcmeNonce_Trace", chosen, sig_prefix="c50-trace-rejected", timeout=1500, max_rejects=3)
+        ctx.log("replay + concurrent + long logs: %d recorded traces (%d events) validated by AcmeNonce_Trace, %d accepted"
+                % (len(chosen), sum(len(t) for t in chosen), ok))
+        nval = len(chosen)
+    if ctx.violations:
+        return
 
     # ---- (4) default back-off in virtual time
     res = ctx.go_test("c50", "TestDefaultBackoff", timeout=600)
